@@ -223,6 +223,9 @@ def run_property(prop, tier, seed, replay=None):
                 ctx.model.close()
     else:
         ctx.notes.append('model executable could not be built; correspondence not run')
+    if bres.reference_model:
+        ctx.notes.append('the model of this tree could not be built (reported as a broken obligation); the failing-input search '
+                         'ran against the reference model extracted by the last ./check --setup on which every theorem checked')
 
     known = load_known()
     known_hits, new_viol = [], []
@@ -246,7 +249,8 @@ def run_property(prop, tier, seed, replay=None):
     if not bres.ok:
         broken_tie.append({'what': 'proof obligation / generated model no longer checks',
                            'file': bres.failed_file, 'where': bres.failed_where, 'stage': bres.stage,
-                           'generated_changed': bres.generated_changed})
+                           'generated_changed': bres.generated_changed,
+                           'search_used_reference_model': bool(bres.reference_model)})
     for d in ctx.disagreements:
         broken_tie.append({'what': 'correspondence (model vs implementation) ' + d['what'], 'site': d['site'],
                            'case': d['case'], 'model': d['model'], 'impl': d['impl'], 'occurrences': d['count']})
